@@ -22,7 +22,7 @@ import time
 
 VERIF = os.path.dirname(os.path.dirname(os.path.abspath(__file__)))
 REPO = os.environ.get('VERIF_REPO', '/repo')
-TARGET_CACHE = '/tmp/verif_kani_target'      # build cache only; recreated when missing
+TARGET_CACHE = os.environ.get('VERIF_KANI_TARGET', '/tmp/verif_kani_target')      # build cache only; recreated when missing
 
 
 class Harness:
@@ -98,11 +98,21 @@ def prepare(scratch):
         f.write('\n[net]\noffline = true\n')
 
 
+def _lock_cache():
+    """Kani phases of concurrent checks share one build cache; they are serialised (kani-driver was seen to pick up
+    artifacts another process had just written there).  The lock dies with the process."""
+    import fcntl
+    f = open(TARGET_CACHE.rstrip('/') + '.lock', 'w')
+    fcntl.flock(f, fcntl.LOCK_EX)
+    return f
+
+
 def run(harnesses, playback=False, timeout=1500, jobs=8, mem_kb=12000000, harness_timeout=600):
     """returns {harness: {'status': 'SUCCESS'|'FAILURE'|'ERROR', 'failed_checks': [...], 'time_s': .., 'playback': str}}, log"""
     scratch = '/tmp/verif_kani_%d' % os.getpid()
     t0 = time.time()
     res = {}
+    lock = _lock_cache()
     try:
         prepare(scratch)
         cmd = ['cargo', 'kani', '-p', 'vibrato', '-Z', 'function-contracts', '-Z', 'stubbing']
@@ -162,6 +172,7 @@ def run(harnesses, playback=False, timeout=1500, jobs=8, mem_kb=12000000, harnes
         return res, out, time.time() - t0
     finally:
         shutil.rmtree(scratch, ignore_errors=True)
+        lock.close()
 
 
 if __name__ == '__main__':
@@ -180,6 +191,7 @@ def replay(playback_text, harness_file, timeout=900):
     """Run the concrete-playback unit test Kani printed against the real crate (cargo kani playback).
     Returns (confirmed_failure: bool, log_tail)."""
     scratch = '/tmp/verif_kani_replay_%d' % os.getpid()
+    lock = _lock_cache()
     try:
         prepare(scratch)
         text = open(os.path.join(VERIF, 'kani', harness_file)).read()
@@ -205,6 +217,7 @@ def replay(playback_text, harness_file, timeout=900):
         return failed, out[-2500:]
     finally:
         shutil.rmtree(scratch, ignore_errors=True)
+        lock.close()
 
 
 def run_rustc(harnesses, timeout=900):
